@@ -48,7 +48,7 @@ def strategy(tier, phase):
 
     step = st.tuples(st.integers(0, len(PASSES) - 1), st.integers(0, 7)).map(list)
     return st.fixed_dictionaries({"tape": rmodel.tape_strategy(), "steps": st.lists(step, min_size=1, max_size=6), "wrap": st.integers(0, 3),
-                                  "gen": st.sampled_from([2, 3, 3]), "prelude": st.one_of(st.just([]), st.just([]), rmodel.tape_strategy(100))})
+                                  "gen": st.sampled_from([2, 3, 4, 4]), "prelude": st.one_of(st.just([]), st.just([]), rmodel.tape_strategy(100))})
 
 
 def make_pass(idx, param):
